@@ -35,7 +35,9 @@ ASSUMPTIONS = [
   "only emitted lengths and checksums are judged against the independent reference; other field encodings are judged by the round trip only",
 ]
 EXHAUSTIVE_SCOPE = {
-  "quick": "the catalog of one minimal instance per protocol / message kind (pvf.ref.pktdissect.catalog), each with payload lengths 0, 1, 6, 7",
+  "quick": "the catalog of one minimal instance per protocol / message kind (pvf.ref.pktdissect.catalog), each with payload lengths 0, 1, 6, 7; "
+           "UDP/TCP/ICMP/ICMPv6 over IPv4/IPv6 with payloads constructed so that the checksum computes to 0x0000 and so that the "
+           "end-around carry must be folded twice",
   "thorough": "as quick plus payload lengths 2..64, 1499, 1500 for every catalog entry with a free payload",
 }
 
@@ -721,11 +723,74 @@ def enum_catalog(tier):
       yield {"spec": spec, "shape": "catalog:" + name}
 
 
+def _unfolded(data):
+  data = bytes(data)
+  if len(data) % 2:
+    data += b"\0"
+  return sum((data[i] << 8) | data[i + 1] for i in range(0, len(data), 2))
+
+
+def _directed_payload(prefix_layers, n, target):
+  """payload of n pattern bytes + 2 filler bytes chosen (with the reference arithmetic) so that the L4 checksum
+  of the frame hits a corner: 'zero' -> the computed checksum is 0x0000 (UDP must send 0xffff);
+  'carry' -> folding the 32-bit sum once overflows again (the end-around carry must be applied twice)."""
+  from ..ref import rfc1071 as R
+  body = P.pattern(n, 1 if target == "carry" else 5)
+  frame = P.build(prefix_layers + [{"t": "raw", "data": body + b"\0\0"}])
+  d = P.dissect(frame)
+  ip = None
+  seg = None
+  for l in d.layers:
+    if l["p"] in ("ipv4", "ipv6"):
+      ip = l
+    if l["p"] in ("udp", "tcp", "icmp", "icmp6"):
+      seg = l
+  end = len(frame)
+  segb = bytearray(frame[seg["off"]:end])
+  co = {"udp": 6, "tcp": 16, "icmp": 2, "icmp6": 2}[seg["p"]]
+  segb[co:co + 2] = b"\0\0"
+  proto = {"udp": 17, "tcp": 6, "icmp6": 58}.get(seg["p"])
+  if seg["p"] == "icmp":
+    ph = b""
+  elif ip["p"] == "ipv4":
+    ph = R.pseudo4(frame[ip["off"] + 12:ip["off"] + 16], frame[ip["off"] + 16:ip["off"] + 20], proto, len(segb))
+  else:
+    ph = R.pseudo6(frame[ip["off"] + 8:ip["off"] + 24], frame[ip["off"] + 24:ip["off"] + 40], proto, len(segb))
+  S = _unfolded(ph + bytes(segb))
+  if target == "zero":
+    f = 0xffff - R.ones_sum(ph + bytes(segb))
+  else:
+    f = (0xffff - (S & 0xffff)) & 0xffff
+  return body + f.to_bytes(2, "big")
+
+
+def enum_directed(tier):
+  """checksum corner cases that random payloads meet with probability ~2^-16 / ~n*2^-17"""
+  e = P._eth()
+  stacks = [
+    ("udp4", [e, P._ip4(), {"t": "udp", "sport": 1000, "dport": 2000}]),
+    ("udp6", [e, P._ip6(), {"t": "udp", "sport": 1000, "dport": 2000}]),
+    ("tcp4", [e, P._ip4(), {"t": "tcp"}]),
+    ("tcp6", [e, P._ip6(), {"t": "tcp", "opts": [{"k": "mss", "v": 1440}]}]),
+    ("icmp4", [e, P._ip4(), {"t": "icmp", "type": 8}, {"t": "echo", "id": 1, "seq": 2}]),
+    ("icmp6", [e, P._ip6(), {"t": "icmp6", "type": 128}, {"t": "echo6", "id": 1, "seq": 2}]),
+  ]
+  sizes = [4, 32, 258] if tier == "quick" else [0, 2, 4, 6, 32, 64, 130, 258, 514, 1000, 1398]
+  for name, prefix in stacks:
+    for n in sizes:
+      for target in ("zero", "carry"):
+        if target == "carry" and n < 4:
+          continue
+        data = _directed_payload(prefix, n, target)
+        yield {"spec": prefix + [{"t": "raw", "data": data}], "shape": "directed:%s-%s" % (name, target), "twin": False}
+
+
 def plan(tier):
   from ..gen import pktspec
   per = 120 if tier == "quick" else 3000
   shapes = pktspec.shapes(1500)
-  drivers = [Enum("catalog", lambda: enum_catalog(tier), shards=4)]
+  drivers = [Enum("catalog", lambda: enum_catalog(tier), shards=4),
+             Enum("directed-checksum-corners", lambda: enum_directed(tier), shards=2)]
   for name in sorted(shapes):
     def mk(name=name):
       return shapes[name].map(lambda s, name=name: {"spec": s, "shape": name})
